@@ -167,16 +167,23 @@ func (l *Ledger) ACLOk(cl *mqtt.Client, topic string, write bool) (n int, ok boo
 	// of iterating through global rules.
 	if l.Users != nil {
 		if u, ok := l.Users[string(cl.Properties.Username)]; ok && len(u.ACL) > 0 {
+			// Several of a user's filters may match one topic. Access is granted if any of them
+			// grants it and denied if only non-granting filters match, so that the decision does
+			// not depend on map iteration order (the same rule as for the ACL rules below).
+			matched := false
 			for filter, access := range u.ACL {
 				if filter.FilterMatches(topic) {
 					if !write && (access == ReadOnly || access == ReadWrite) {
 						return n, true
 					} else if write && (access == WriteOnly || access == ReadWrite) {
 						return n, true
-					} else {
-						return n, false
 					}
+					matched = true
 				}
+			}
+
+			if matched {
+				return n, false
 			}
 		}
 	}
